@@ -16,14 +16,97 @@ pub fn plan(p: &EpParams) -> Plan {
     Plan {
         episodes: n,
         exhaustive: false,
-        rule: "sequential episodes: payload classes {empty, 1 byte, all 256 byte values, 64 KiB, 1 MiB (every 16th episode), random binary} x attribute classes {none, one, 50 keys, empty key / empty value, non-ASCII, 4 KiB values}; every message is delivered >=3 times (expiry and nack) on two subscriptions through Pull and StreamingPull; topics are deleted and re-created under the same name (and other topics published to) with publishes on every incarnation. Byte-exact comparison of data and attributes, message id = the id Publish returned, publish_time constant per message, ids unique across topics and incarnations. Non-trivial: >=1 message delivered >=3 times and >=1 topic re-created. Distinct: (payload class, attribute class, path).".into(),
+        rule: "sequential episodes: payload classes {empty, 1 byte, all 256 byte values, 64 KiB, 1 MiB (every 16th episode), random binary} x attribute classes {none, one, 50 keys, empty key / empty value, non-ASCII, 4 KiB values}; every message is delivered >=3 times (expiry and nack) on two subscriptions through Pull and StreamingPull; topics are deleted and re-created under the same name (and other topics published to) with publishes on every incarnation. Byte-exact comparison of data and attributes, message id = the id Publish returned, publish_time constant per message, ids unique across topics and incarnations; every 8th episode instead creates 25-60 topics in one server lifetime (deletions, re-creations under old and new names, 1-15 messages per publish, long-lived early topics) and checks id uniqueness and delivered id = published id over everything issued. Non-trivial: >=1 message delivered >=3 times and >=1 topic re-created. Distinct: (payload class, attribute class, path).".into(),
     }
 }
 
 pub fn run(p: &EpParams) -> EpReport {
     let rt = episode_runtime(p.ep_seed, true, false, 1);
     let p2 = p.clone();
-    rt.block_on(async move { episode(&p2).await })
+    rt.block_on(async move {
+        if p2.engine != "miri" && p2.get_u64("index").unwrap_or(0) % 8 == 7 {
+            many_topics(&p2).await
+        } else {
+            episode(&p2).await
+        }
+    })
+}
+
+/// Every 8th episode: many topics in one server lifetime (25-60 creations with deletions and
+/// re-creations under old and new names), 1-15 messages per publish, early topics published to
+/// again late. Message ids must be unique across everything the server ever issued, and every
+/// delivery must carry the id its Publish returned.
+async fn many_topics(p: &EpParams) -> EpReport {
+    let mut rep = EpReport::default();
+    let mut rng = Rng::new(p.ep_seed);
+    let w = World::new(transport_of(p), true, Some(rng.below(100))).await;
+    let cx = Cx::new(&w, 0);
+    let mut live: Vec<(String, String)> = Vec::new(); // (topic, its subscription)
+    let mut created = 0u32;
+    let mut next_name = 0u32;
+    let mut tag_no = 0u64;
+    let rounds = rng.range(60, 140);
+    let mut free_names: Vec<u32> = Vec::new();
+    for _ in 0..rounds {
+        match rng.below(10) {
+            0..=2 => {
+                // create: a fresh name, or the name of a deleted topic
+                let n = if !free_names.is_empty() && rng.chance(1, 2) {
+                    free_names.swap_remove(rng.below(free_names.len() as u64) as usize)
+                } else {
+                    next_name += 1;
+                    next_name
+                };
+                let (t, s) = (topic_name(1, n), sub_name(1, n));
+                if cx.create_topic(&t).await.is_ok() {
+                    created += 1;
+                    // the subscription of an earlier incarnation may still exist (detached): replace it
+                    let _ = cx.delete_sub(&s).await;
+                    if cx.create_sub(&s, &t, 600).await.is_ok() {
+                        live.push((t, s));
+                    }
+                }
+            }
+            3 if live.len() > 2 => {
+                let (t, _) = live.swap_remove(rng.below(live.len() as u64) as usize);
+                if cx.delete_topic(&t).await.is_ok() {
+                    if let Some(n) = t.rsplit('t').next().and_then(|x| x.parse::<u32>().ok()) {
+                        free_names.push(n);
+                    }
+                }
+            }
+            _ if !live.is_empty() => {
+                // publish: early topics are favoured (long-lived topics collect many messages)
+                let i = if rng.chance(1, 2) { rng.below(live.len().min(3) as u64) as usize } else { rng.below(live.len() as u64) as usize };
+                let k = rng.range(1, 15);
+                let msgs: Vec<Msg> = (0..k)
+                    .map(|_| {
+                        tag_no += 1;
+                        Msg::tagged(&format!("mt{}", tag_no))
+                    })
+                    .collect();
+                let _ = cx.publish(&live[i].0, &msgs).await;
+                if rng.chance(1, 3) {
+                    let _ = cx.pull(&live[i].1, 1000, true).await;
+                }
+            }
+            _ => {}
+        }
+    }
+    for (_, s) in &live {
+        let _ = cx.pull(s, 1000, true).await;
+    }
+    let h = w.history();
+    let ids = crate::checks::order::check_identity(&h, &mut rep);
+    rep.add("identity_deliveries_checked", ids.deliveries_checked);
+    rep.add("topics_created_in_one_lifetime", created as u64);
+    rep.add("many_topics_episodes", 1);
+    rep.nontrivial = created >= 20 && ids.deliveries_checked > 0;
+    rep.key = format!("many-topics created={} msgs={}", created, tag_no);
+    rep.extra_keys = vec![rep.key.clone()];
+    rep.history = h.abstract_lines(if rep.violations.is_empty() { 30 } else { 300 });
+    w.shutdown();
+    rep
 }
 
 fn payload(class: u64, rng: &mut Rng) -> (Vec<u8>, &'static str) {
